@@ -75,7 +75,7 @@ func (rule *RuleEvents) checkCron(spec *String) {
 		return
 	}
 
-	start := sched.Next(time.Unix(0, 0))
+	start := sched.Next(time.Unix(0, 0).UTC()) // Schedules run in UTC. Do not depend on the time zone of the machine
 	next := sched.Next(start)
 	diff := next.Sub(start).Seconds()
 
